@@ -410,6 +410,21 @@ def run(tier="quick", seed=0):
                 tseeds = tuple(range(10)) if thorough else tuple(range(5))
                 evaluate(p, tseeds, tseeds, (1.0,), only=("sa_python_kernel", "sa_c_kernel", "sequential", "hilbert", "rcm", "breadth_first"))
                 tight += 1
+        # (E) larger and elongated machines, exactly filled with one-core vertices (every working chip is needed): every placer
+        #     must succeed and use every working chip once; with and without one dead chip; a chain of nets
+        elong = 0
+        for (w, h) in ((1, 4), (4, 1), (1, 5), (5, 1), (2, 8), (8, 2), (3, 5), (5, 3), (3, 3), (7, 2), (1, 16), (16, 1), (3, 12), (6, 4)):
+            chips = [(x, y) for x in range(w) for y in range(h)]
+            for dead in ((), (chips[len(chips) // 2],)):
+                nlive = len(chips) - len(dead)
+                if nlive == 0:
+                    continue
+                nets = [(i, [i + 1], 1.0) for i in range(1, nlive)]
+                p = {"w": w, "h": h, "caps": (1,), "dead": tuple(dead), "exc": {}, "needs": [(1,)] * nlive, "loc": [], "same": [],
+                     "gres": [], "lres": [], "nets": nets}
+                eseeds = tuple(range(3)) if thorough else (elong % 3,)
+                evaluate(p, eseeds, eseeds, (1.0,))
+                elong += 1
         if size_vectors:
             t = size_vectors[0]
             samples.append({"tight_packing": {"machine": "2x2, 3 cores per chip", "vertex_sizes": list(t)}})
@@ -419,7 +434,7 @@ def run(tier="quick", seed=0):
     viol = [v for _, v in sorted(found.values(), key=lambda sv: sv[1]["clause"])]
     return {"name": "c02_place", "evaluations": st["ev"], "distinct_nontrivial": st["problems"],
             "rule": "a problem = (machine, vertex need vectors, location set, same-chip set, global reservations, per-chip reservations, nets) from menus: "
-                    "%d machine shapes (1x1, 2x1, 1x2, 2x2 with dead-chip sets incl. all-dead) x %d resource layouts (chip resources (4,4)/(2)/(3,2)/(1,1)/(3) of Cores/SDRAM; "
+                    "family E: 14 larger / elongated machine shapes (1x4 ... 16x1, 3x12, 6x4) with one core per chip, exactly filled with one-core vertices, with and without a dead chip, every placer; %d machine shapes (1x1, 2x1, 1x2, 2x2 with dead-chip sets incl. all-dead) x %d resource layouts (chip resources (4,4)/(2)/(3,2)/(1,1)/(3) of Cores/SDRAM; "
                     "0-2 chip_resource_exceptions on the first / last / a dead chip), "
                     "%d need-vector sets (all for <= 2 vertices with needs 0..2 of 2 resources; 3 and 4 vertices: all single-resource 0..2 / 0..1 / 1..2 vectors and mixed ones%s), "
                     "%d location sets (<= 3, duplicated, on a dead chip), %d same-chip sets (chained, duplicated member, repeated group, overlapping, empty/singleton), "
